@@ -224,8 +224,9 @@ def strict_parse(data):
             if e2 != end:
                 raise Reject
             rd = (int.from_bytes(data[off:off + 2], 'big'), int.from_bytes(data[off + 2:off + 4], 'big'), int.from_bytes(data[off + 4:off + 6], 'big'), _nm(tl))
-        elif t in (1, 28, 13, 47):
-            raise Reject                        # malformed / not compared (HINFO and NSEC: totality only)
+        elif t in (1, 28):
+            raise Reject                        # address record with a wrong rdlength
+        # HINFO, NSEC and unknown types: rdata not compared (totality only)
         rs.append(None if rd is None else (_nm(labels), t, c, ttl, rd))
         off = end
     if off != len(data):
